@@ -387,7 +387,7 @@ def flat_stream(ck, quick):
         ck.count("flat.witness." + name + (".as_recorded" if (expect is None and "events" in tr["real"]) or expect == tr["real"] else ".behaves_differently_now"))
         for what, detail in flat_tie.compare(tr, rows, run, treerun, tree):
             ck.tie_break(what + " (witness " + name + ")", {"csv": rows_to_csv(hdr, rows), "detail": detail})
-    n_total = 1920 if quick else 24000
+    n_total = 1920 if quick else 12000
     nshards = par.NPROC * (1 if quick else 4)
     jobs = [(ck.rng.randrange(1 << 60), n_total // nshards, 14 if quick else 30) for _ in range(nshards)]
     total = 0
